@@ -145,6 +145,15 @@ CLAIMED['C11'] = dict(
     note='Coq kernel; no axioms; threads are not in this model (C10 covers locking); "never returns" is fuel exhaustion in the model and a bounded hang guard on the fake sleep in the harness; '
          'PortServer/SocketPort are covered under C18.',
     technique='Coq proof (invariant by induction over operation histories and device scripts) + model/implementation correspondence', design='5/C11')
+CLAIMED['C18'] = dict(
+    text='Theorem C18_cut over a model of SocketPort (BaseInput.receive / iteration over a device that reads the connection byte by byte into the stream parser): for EVERY list '
+         'of valid messages, EVERY cut offset of their byte stream, EVERY segmentation of the bytes before the cut and a peer that closes or dies, iteration yields exactly the '
+         'messages that arrived completely, ends normally and leaves the port closed with the connection released; close is seen by the peer; format_address / parse_address '
+         'are mutually inverse for every colon-free host and port 1..65535; the server port never waits in non-blocking calls. The correspondence drives real TCP connections on '
+         '127.0.0.1 (every cut offset, FIN and RST, random segmentations) under a scheduler that decides the arrival pattern per _is_readable() call.',
+    note='Coq kernel; no axioms; the kernel TCP stack and CPython socket objects appear in the model as the event list and the three open/closed flags (assumptions recorded in '
+         'the evidence); the behaviour before the three repairs of this tree is kept as refuted theorems.',
+    technique='Coq proof (induction over the event list with a what-is-still-owed invariant; reuse of the tokenizer theorems) + model/implementation correspondence over real sockets', design='5/C18')
 NOT_YET = {}
 ALL = ['C%02d' % i for i in range(1, 21)]
 
